@@ -181,6 +181,30 @@ func checkC11(c *Ctx) {
 		nprog++
 		compileBoth(c, p.Scripts[0].Name, p, src, base, &cases, &rejected)
 	}
+	// conditions with many operands, every one an AutoVar command
+	for _, p := range bigPrograms() {
+		if !strings.HasPrefix(p.Scripts[0].Name, "BigCond") && !strings.HasPrefix(p.Scripts[0].Name, "BigWhile") && !strings.HasPrefix(p.Scripts[0].Name, "BigFlat") {
+			continue
+		}
+		k := 0
+		walkStmts(p.Scripts[0].Body, func(s *Stmt) {
+			auto := func(e *Expr) {
+				walkExpr(e, func(x *Expr) {
+					if x.K == "leaf" {
+						k++
+						*x = *autoLeaf(k, x.Form == "not")
+					}
+				})
+			}
+			for j := range s.Arms {
+				auto(s.Arms[j].Cond)
+			}
+			if s.Cond != nil {
+				auto(s.Cond)
+			}
+		})
+		compileBoth(c, p.Scripts[0].Name, p, RenderProg(p, Style{R: r}), base, &cases, &rejected)
+	}
 	// AutoVar commands that take inline text (yes/no boxes ...) as conditions, alone and as first /
 	// middle / last operand of && and || chains: "the same rendering it would have as a statement"
 	nf := 80
